@@ -19,6 +19,8 @@ import (
 	"seehuhn.de/go/sfnt/cmap"
 	"seehuhn.de/go/sfnt/glyph"
 	"seehuhn.de/go/sfnt/kern"
+	"seehuhn.de/go/sfnt/opentype/classdef"
+	"seehuhn.de/go/sfnt/opentype/gdef"
 	"seehuhn.de/go/sfnt/opentype/gtab"
 	genfont "verif/harness/gen/font"
 	"verif/harness/gen/lookups"
@@ -302,10 +304,38 @@ func genString(t *rapid.T, runes []rune) string {
 		if len(runes) > 0 && rapid.IntRange(0, 4).Draw(t, "mapped") > 0 {
 			sb.WriteRune(rapid.SampledFrom(runes).Draw(t, "r"))
 		} else {
-			sb.WriteRune(rapid.SampledFrom([]rune{'?', 0x3000, 0x1F600, 'Z'}).Draw(t, "unmapped"))
+			pool := []rune{'?', 0x3000, 0x1F600, 'Z', 0xFFFF, 0x10FFFF}
+			// characters beyond the BMP that share their low 16 bits with a
+			// mapped character (unmapped unless the font maps them as well)
+			if len(runes) > 0 {
+				r := rapid.SampledFrom(runes).Draw(t, "aliasOf")
+				if r <= 0xFFFF {
+					pool = append(pool, r+0x10000, r+0x10000, r+0x100000)
+				}
+			}
+			sb.WriteRune(rapid.SampledFrom(pool).Draw(t, "unmapped"))
 		}
 	}
 	return sb.String()
+}
+
+// refLookup reads the mapping out of the data of a decoded subtable (a map
+// from character codes to glyphs) instead of asking its Lookup method: a
+// code point outside the map, or outside the range of its keys, is unmapped.
+func refLookup(st cmap.Subtable, r rune) glyph.ID {
+	switch st := st.(type) {
+	case cmap.Format4:
+		if r < 0 || r > 0xFFFF {
+			return 0
+		}
+		return st[uint16(r)]
+	case cmap.Format12:
+		if r < 0 {
+			return 0
+		}
+		return st[uint32(r)]
+	}
+	return st.Lookup(r)
 }
 
 func mappedRunes(f *sfnt.Font) []rune {
@@ -334,7 +364,7 @@ func refPipeline(f *sfnt.Font, s string, lang language.Tag, gsubF, gposF map[str
 		return nil, false
 	}
 	for _, r := range s {
-		seq = append(seq, glyph.Info{GID: best.Lookup(r), Text: []rune{r}})
+		seq = append(seq, glyph.Info{GID: refLookup(best, r), Text: []rune{r}})
 	}
 	if f.Gsub != nil {
 		if gsubF == nil {
@@ -475,12 +505,12 @@ func TestC15Layout(t *testing.T) {
 				}
 				best, _ := f.CMapTable.GetBest()
 				for i, g := range got {
-					wantAdv := funit.Int16(f.GlyphWidth(best.Lookup(rr[i])))
+					wantAdv := funit.Int16(f.GlyphWidth(refLookup(best, rr[i])))
 					if f.Gdef != nil && f.Gdef.GlyphClass[g.GID] == 3 {
 						wantAdv = 0
 					}
-					if g.GID != best.Lookup(rr[i]) || string(g.Text) != string(rr[i]) || g.Advance != wantAdv || g.XOffset != 0 || g.YOffset != 0 {
-						t.Fatalf("no layout rules, Layout(%q)[%d] = %v, want gid %d text %q advance %d\n%s", s, i, g, best.Lookup(rr[i]), string(rr[i]), wantAdv, ctx())
+					if g.GID != refLookup(best, rr[i]) || string(g.Text) != string(rr[i]) || g.Advance != wantAdv || g.XOffset != 0 || g.YOffset != 0 {
+						t.Fatalf("no layout rules, Layout(%q)[%d] = %v, want gid %d text %q advance %d\n%s", s, i, g, refLookup(best, rr[i]), string(rr[i]), wantAdv, ctx())
 					}
 				}
 			} else {
@@ -629,6 +659,33 @@ func TestC15Kern(t *testing.T) {
 		}
 		f.InstallCMap(m)
 		f.Gdef = nil
+		// half of the fonts classify their glyphs: marks start from advance 0
+		// (C15: "each non-mark glyph its advance width"), and the kern
+		// table's pairs apply to them like to any other glyph
+		isMark := make([]bool, n)
+		nMarks := 0
+		if rapid.Bool().Draw(t, "withGdef") {
+			cls := classdef.Table{}
+			for i := 1; i < n; i++ {
+				switch rapid.IntRange(0, 5).Draw(t, "glyphClass") {
+				case 0, 1:
+					cls[glyph.ID(i)] = gdef.GlyphClassMark
+					isMark[i] = true
+					nMarks++
+				case 2:
+					cls[glyph.ID(i)] = gdef.GlyphClassBase
+				case 3:
+					cls[glyph.ID(i)] = gdef.GlyphClassLigature
+				}
+			}
+			f.Gdef = &gdef.Table{GlyphClass: cls}
+		}
+		baseAdv := func(gid int) int {
+			if isMark[gid] {
+				return 0
+			}
+			return int(funit.Int16(f.GlyphWidth(glyph.ID(gid))))
+		}
 		var buf bytes.Buffer
 		if _, err := f.Write(&buf); err != nil {
 			t.Fatalf("Write: %v", err)
@@ -701,15 +758,15 @@ func TestC15Kern(t *testing.T) {
 					stats.Label("kern", "pair-sum-beyond-16-bit")
 					continue
 				}
-				got := int(out[0].Advance) - int(funit.Int16(g.GlyphWidth(glyph.ID(a))))
-				wa := int(funit.Int16(g.GlyphWidth(glyph.ID(a))))
+				wa := baseAdv(a)
+				got := int(out[0].Advance) - wa
 				if wa+want > 32767 || wa+want < -32768 {
 					continue // advance not representable in 16 bits
 				}
 				if got != want {
 					t.Fatalf("pair (%d,%d): advance adjusted by %d, kern table says %d\n%s", a, b, got, want, ctx())
 				}
-				if out[1].Advance != funit.Int16(g.GlyphWidth(glyph.ID(b))) || out[0].XOffset != 0 || out[1].XOffset != 0 {
+				if int(out[1].Advance) != baseAdv(b) || out[0].XOffset != 0 || out[1].XOffset != 0 {
 					t.Fatalf("pair (%d,%d): unexpected adjustments %s\n%s", a, b, infoStr(out), ctx())
 				}
 				if want != 0 {
@@ -745,7 +802,7 @@ func TestC15Kern(t *testing.T) {
 			want := make([]int, k)
 			ok, kerned := true, 0
 			for j := range gids {
-				want[j] = int(funit.Int16(g.GlyphWidth(glyph.ID(gids[j]))))
+				want[j] = baseAdv(gids[j])
 				if j+1 < k {
 					kv, representable := refKern(subs, uint16(gids[j]), uint16(gids[j+1]))
 					if !representable || want[j]+kv > 32767 || want[j]+kv < -32768 {
@@ -771,6 +828,9 @@ func TestC15Kern(t *testing.T) {
 			}
 		}
 		labels := []string{fmt.Sprintf("subtables-%d", ns), "kind-" + c.Kind.String()}
+		if f.Gdef != nil {
+			labels = append(labels, fmt.Sprintf("gdef-with-%d-marks", min(nMarks, 3)))
+		}
 		if chains > 0 {
 			labels = append(labels, "run-with-overlapping-kerned-pairs")
 		}
